@@ -1,9 +1,15 @@
 // CS probe for C14: a Content Store keyed by Name.Hash() must not answer an Interest with Data of a different name.
 // Replays the consequence of the hash-input collision found by C14 (fixed in std/encoding Component.HashInto).
-package names
+package namescs
 
 import (
+	"bufio"
+	"encoding/hex"
+	"os"
+	"strconv"
+	"strings"
 	"sync"
+	"testing"
 	"time"
 
 	"github.com/named-data/ndnd/fw/core"
@@ -78,8 +84,71 @@ func csProbe(x, y enc.Name) string {
 	return "hit " + nameStr(d.NameV)
 }
 
-func (e *emitter) cshit(x, y enc.Name) {
-	e.count("CSHIT")
-	res := guard(func() string { return csProbe(x, y) })
-	e.w.WriteString("CSHIT " + nameStr(x) + " " + nameStr(y) + " " + res + "\n")
+func nameStr(n enc.Name) string {
+	if len(n) == 0 {
+		return "-"
+	}
+	parts := make([]string, len(n))
+	for i, c := range n {
+		parts[i] = strconv.FormatUint(uint64(c.Typ), 10) + ":" + hex.EncodeToString(c.Val)
+	}
+	return strings.Join(parts, ",")
+}
+
+func parseName(s string) enc.Name {
+	if s == "-" {
+		return enc.Name{}
+	}
+	parts := strings.Split(s, ",")
+	n := make(enc.Name, len(parts))
+	for i, p := range parts {
+		j := strings.IndexByte(p, ':')
+		t, err := strconv.ParseUint(p[:j], 10, 64)
+		if err != nil {
+			panic(err)
+		}
+		v, err := hex.DecodeString(p[j+1:])
+		if err != nil {
+			panic(err)
+		}
+		n[i] = enc.Component{Typ: enc.TLNum(t), Val: v}
+	}
+	return n
+}
+
+// TestCs: for every line "CSHIT <x> <y> ..." or "CSREQ <x> <y>" of VERIF_OPS write "CSHIT <x> <y> <result>" to VERIF_OUT.
+func TestCs(t *testing.T) {
+	ops, out := os.Getenv("VERIF_OPS"), os.Getenv("VERIF_OUT")
+	if ops == "" || out == "" {
+		t.Skip("VERIF_OPS/VERIF_OUT not set")
+	}
+	in, err := os.Open(ops)
+	if err != nil {
+		t.Fatal(err)
+	}
+	defer in.Close()
+	f, err := os.Create(out)
+	if err != nil {
+		t.Fatal(err)
+	}
+	defer f.Close()
+	w := bufio.NewWriter(f)
+	defer w.Flush()
+	sc := bufio.NewScanner(in)
+	sc.Buffer(make([]byte, 1<<20), 1<<26)
+	for sc.Scan() {
+		fl := strings.Split(strings.TrimSpace(sc.Text()), " ")
+		if len(fl) < 3 || (fl[0] != "CSHIT" && fl[0] != "CSREQ") {
+			continue
+		}
+		res := func() (r string) {
+			defer func() {
+				if recover() != nil {
+					r = "panic"
+				}
+			}()
+			return csProbe(parseName(fl[1]), parseName(fl[2]))
+		}()
+		w.WriteString("CSHIT " + fl[1] + " " + fl[2] + " " + res + "\n")
+	}
 }
